@@ -346,6 +346,7 @@ class Scenario:
             "icall": "mov eax, %d\ncall rax" % k,
             "byte": ".byte %d\n.byte %d" % (k & 0xFF, (k >> 4) & 0xFF),
             "quad": ".quad 0x%x" % (0x1122334455000000 + k),
+            "selfloop": ".Lx:\nmov eax, %d\njne .Lx" % k,
         }
         if name.startswith("jmp:"):
             text = "mov eax, %d\njmp %s" % (k, name[4:])
